@@ -270,6 +270,19 @@ def pin_opaque_widths():
         v = orig(k)
         return v | (1 << (k - 1)) if k == 16 else v
     secrets.randbits = randbits
+    # the same for wall-clock stamps: pydantic prints a datetime whose microsecond is 0 without the fraction (7 characters shorter), and
+    # frames / NTP replies carry `datetime.now()`: one frame in a million is 7 bytes smaller. Keep the clock, pin the width.
+    import datetime as _dtmod
+    import sys
+
+    class _DT(_dtmod.datetime):
+        @classmethod
+        def now(cls, tz=None):
+            d = _dtmod.datetime.now(tz)
+            return d if d.microsecond else d.replace(microsecond=1)
+    for name, mod in list(sys.modules.items()):
+        if name.startswith("primaite") and mod is not None and getattr(mod, "datetime", None) is _dtmod.datetime:
+            setattr(mod, "datetime", _DT)
     _PINNED = True
 
 
@@ -291,9 +304,12 @@ def normalise_process_state():
     PacketCapture.clear()
 
 
-def run_schedule(cfg_a: Dict, cfg_b: Optional[Dict], schedule: List[Tuple], shield: Optional[Tuple[bool, bool]] = None) -> List[Dict[str, str]]:
+def run_schedule(cfg_a: Dict, cfg_b: Optional[Dict], schedule: List[Tuple], shield: Optional[Tuple[bool, bool]] = None,
+                 globals_fp: Optional[Callable[[], Dict[str, str]]] = None, own: Optional[List[str]] = None) -> List[Dict[str, str]]:
     """schedule entries: ("A", "construct") ("A", "reset", seed) ("A", "step", act) and the same for "B" plus ("B", "close").
-    Returns A's canonical trajectory. B's entries are skipped when cfg_b is None (A alone)."""
+    Returns A's canonical trajectory. B's entries are skipped when cfg_b is None (A alone).
+    With `globals_fp`, the fingerprint of the run-time written, readable process globals right after each of A's OWN construct / reset
+    operations is appended to `own` (what A's `from_config` left behind must be a function of A's scenario alone)."""
     envs: Dict[str, Any] = {}
     canon = Canon()
     traj: List[Dict[str, str]] = []
@@ -321,8 +337,12 @@ def run_schedule(cfg_a: Dict, cfg_b: Optional[Dict], schedule: List[Tuple], shie
         else:
             if op == "construct":
                 envs["A"] = scen.make_env(cfg_a)
+                if globals_fp is not None and own is not None:
+                    own.append(json.dumps(globals_fp(), sort_keys=True))
             elif op == "reset":
                 traj += run_ops(envs["A"], [("reset", ent[2])], canon)
+                if globals_fp is not None and own is not None:
+                    own.append(json.dumps(globals_fp(), sort_keys=True))
             elif op == "step":
                 traj += run_ops(envs["A"], [("step", ent[2])], canon)
     return traj
@@ -352,11 +372,19 @@ def gen_schedule(rng: Rng, n_a: int, space_a: int, space_b: int, b_first: bool) 
     return s
 
 
-def interleaving(cfg_a: Dict, cfg_b: Dict, schedule: List[Tuple]) -> dict:
-    solo = run_schedule(cfg_a, None, schedule)
-    inter = run_schedule(cfg_a, cfg_b, schedule)
+def interleaving(cfg_a: Dict, cfg_b: Dict, schedule: List[Tuple], globals_fp: Optional[Callable[[], Dict[str, str]]] = None) -> dict:
+    own_solo: List[str] = []
+    own_inter: List[str] = []
+    solo = run_schedule(cfg_a, None, schedule, globals_fp=globals_fp, own=own_solo)
+    inter = run_schedule(cfg_a, cfg_b, schedule, globals_fp=globals_fp, own=own_inter)
     diff = first_difference(solo, inter)
-    res = {"diff": diff, "channels": [], "solo": solo, "inter": inter, "digest": digest(solo)}
+    res = {"diff": diff, "channels": [], "solo": solo, "inter": inter, "digest": digest(solo), "own_globals": None}
+    # F-10 says: B's from_config OVERWRITES the class attributes A reads. A different defect class: A's own from_config does not
+    # (re)write them, so what A sees right after its own construction / reset depends on who ran before.
+    for i, (x, y) in enumerate(zip(own_solo, own_inter)):
+        if x != y:
+            res["own_globals"] = {"index": i, "solo": x[:400], "interleaved": y[:400]}
+            break
     if diff is None:
         return res
     fixes = {}
